@@ -29,6 +29,13 @@ import (
 func Format(input []byte) []byte {
 	input = bytes.TrimSpace(input)
 
+	// the lexer discards a byte order mark at the very beginning of
+	// the input: keep it, but it is not part of the first token
+	bom := bytes.HasPrefix(input, []byte("\uFEFF"))
+	if bom {
+		input = bytes.TrimSpace(input[len("\uFEFF"):])
+	}
+
 	out := new(bytes.Buffer)
 	rdr := bytes.NewReader(input)
 
@@ -56,6 +63,7 @@ func Format(input []byte) []byte {
 		quoted     bool // whether we're in a quoted segment
 		backquoted bool // whether we're in a backquoted segment
 		escaped    bool // whether current char is escaped
+		tokenEnded bool // whether previous char closed a quoted segment (the lexer starts a new token right after it)
 
 		heredoc              heredocState // whether we're in a heredoc
 		heredocEscaped       bool         // whether heredoc is escaped
@@ -162,12 +170,14 @@ func Format(input []byte) []byte {
 		if backquoted {
 			if ch == '`' {
 				backquoted = false
+				tokenEnded = true
 			}
 			write(ch)
 			continue
 		}
 
 		if !escaped && ch == '\\' {
+			tokenEnded = false
 			if space {
 				write(' ')
 				space = false
@@ -189,21 +199,23 @@ func Format(input []byte) []byte {
 		if quoted {
 			if ch == '"' {
 				quoted = false
+				tokenEnded = true
 			}
 			write(ch)
 			continue
 		}
 
-		if space && ch == '"' {
+		if (space || tokenEnded) && ch == '"' {
 			quoted = true
 		}
 
-		if space && ch == '`' {
+		if (space || tokenEnded) && ch == '`' {
 			backquoted = true
 		}
 
 		if unicode.IsSpace(ch) {
 			space = true
+			tokenEnded = false
 			heredocEscaped = false
 			if ch == '\n' {
 				newLines++
@@ -213,6 +225,11 @@ func Format(input []byte) []byte {
 		spacePrior := space
 		space = false
 
+		// like in the lexer, a token starts after white space or
+		// right after the closing quote of a quoted segment
+		tokenStart := spacePrior || tokenEnded
+		tokenEnded = false
+
 		//////////////////////////////////////////////////////////
 		// I find it helpful to think of the formatting loop in two
 		// main sections; by the time we reach this point, we
@@ -221,7 +238,8 @@ func Format(input []byte) []byte {
 		// like a comment or quoted, it's not escaped, etc.
 		//////////////////////////////////////////////////////////
 
-		if ch == '#' {
+		// a comment starts only at the beginning of a token
+		if ch == '#' && tokenStart {
 			comment = true
 		}
 
@@ -308,5 +326,8 @@ func Format(input []byte) []byte {
 
 	// ...Caddyfiles should, however, end with a newline because
 	// newlines are significant to the syntax of the file
+	if bom {
+		trimmedResult = append([]byte("\uFEFF"), trimmedResult...)
+	}
 	return append(trimmedResult, '\n')
 }
